@@ -75,12 +75,16 @@ package freelist
 
 //@ func (cp *FreeList) Flush() (work types.Work, err error)  property C13
 //@   preserves cp
+//@   unreachable return#2: dead code - blocks is the pool that was just found non-empty
 //@   modifies cp.blockPool, cp.outstandingWork
 //@   abstract gap GAP-3: pool+file contents implement the ghost multiset
 //@   abstract modifies cp.$pending
 //@   abstract ensures err == nil ==> !cp.$pending
 //@   abstract ensures old(!cp.$pending) ==> !cp.$pending
 //@   ensures @pool-emptied old(len(cp.blockPool)) > 0 ==> len(cp.blockPool) == 0 && cp.outstandingWork == 0
+// ownership: the entries being written are read after poolLk was released, so the new pool
+// must not share its backing array with them (a concurrent Put appends into the pool)
+//@   ensures @pool-not-aliased old(len(cp.blockPool)) > 0 ==> fresh(cp.blockPool)
 //@   ensures @nothing-to-do old(len(cp.blockPool)) == 0 ==> work == 0 && err == nil && event("call:freelist.FreeList.flushBlock") == 0 && cp.blockPool == old(cp.blockPool)
 //@   ensures @each-once err == nil ==> event("call:freelist.FreeList.flushBlock") == old(len(cp.blockPool)) && work == 12 * old(len(cp.blockPool))
 //@   loop 0 invariant held(cp.flushLock) && 0 <= $idx && $idx <= len(blocks) && blocks == old(cp.blockPool) && len(cp.blockPool) == 0 && cp.outstandingWork == 0
